@@ -2,6 +2,7 @@ package main
 
 import (
 	"go/types"
+	"strconv"
 	"strings"
 
 	"golang.org/x/tools/go/ssa"
@@ -31,7 +32,7 @@ func isBankMutatorCall(c ssa.CallInstruction) bool {
 }
 
 func checkC01(c *Check) {
-	c.Explanation = "Ledger discipline behind conservation, decided for all call sites and all CFG paths: (R1) who-may-call — bank mutators are called only in x/escrow/keeper with the constant escrow module name; (R2) double entry at each of the send sites — the amount sent is the same SSA value as the amount credited/zeroed in the record, the record write sits on the ok-edge of the send and nothing is written before it; (R3) settlement helpers are pure and the settle core reaches the bank only through the payment withdraw helper; (R4) the four balance fields are stored only inside x/escrow/keeper and Save* is reachable only from genesis; (R5) the escrow module account has no mint/burn permission and is blocked from receiving external transfers; (R6) a record paid out or persisted after a settlement was loaded after that settlement (a stale copy written back would destroy the credit just booked)."
+	c.Explanation = "Ledger discipline behind conservation, decided for all call sites and all CFG paths: (R1) who-may-call — bank mutators are called only in x/escrow/keeper with the constant escrow module name; (R2) double entry at each of the send sites — the amount sent is the same SSA value as the amount credited/zeroed in the record, the record write sits on the ok-edge of the send and nothing is written before it; (R3) settlement helpers are pure and the settle core reaches the bank only through the payment withdraw helper; (R4) the four balance fields are stored only inside x/escrow/keeper and Save* is reachable only from genesis; (R5) the escrow module account has no mint/burn permission and is blocked from receiving external transfers; (R6) a record paid out or persisted after a settlement was loaded after that settlement (a stale copy written back would destroy the credit just booked). The genesis import order handed to the module manager names the escrow module."
 	c.NotDecided = "the numeric identity sum(recorded balances) = module balance over histories (arithmetic of the settle helpers)"
 	l := c.L
 	modName := l.constVal("x/escrow/types", "ModuleName").ExactString()
@@ -67,6 +68,9 @@ func checkC01(c *Check) {
 	kfuncs := l.pkgFuncs("x/escrow/keeper")
 	nsend := 0
 	for _, fn := range kfuncs {
+		if isNewFunc(fn) && fn.Parent() == nil && len(l.callSitesOf(fn)) > 0 {
+			continue // a new helper's sends are accounted with the pinned function that calls it
+		}
 		c.Analysed(fnName(fn))
 		for _, call := range callsIn(fn, false) {
 			if !isBankMutatorCall(call) {
@@ -164,6 +168,14 @@ func checkC01(c *Check) {
 			for _, call := range callsIn(fn, false) {
 				if calleeMethod(call) == name && strings.Contains(calleeFull(call), "x/escrow/keeper") {
 					ok := fnName(fn) == "x/escrow.InitGenesis" || fnPkgPath(fn) == escrowKeeperPkg
+					if !ok && isNewFunc(fn) {
+						if ig := l.Func("x/escrow", "", "InitGenesis"); ig != nil && inCodeOf(ig, fn) {
+							ok = true // a new helper of the genesis import
+						}
+					}
+					if !ok && call.Parent() != fn {
+						continue // enumerated with the function it belongs to
+					}
 					c.Ob("R4", name+" called from "+fnName(fn), call.Pos(), ok, "raw escrow record overwrite outside genesis import")
 				}
 			}
@@ -206,6 +218,47 @@ func checkC01(c *Check) {
 
 	// ---- R5 configuration
 	c.macPerms(modName)
+	c.genesisOrderRule("R5", []string{"escrow"})
+}
+
+// genesisOrderRule: the SDK's module manager imports the genesis state only of the modules named in the order it is
+// given (a module left out is skipped without an error, while export still writes its state and the bank still
+// restores the module account's coins). The order handed to SetOrderInitGenesis must therefore come from
+// akashInitGenesisOrder and that list must name each module whose records the property is about.
+func (c *Check) genesisOrderRule(rule string, mods []string) {
+	l := c.L
+	fn := l.Func("app", "AkashApp", "akashInitGenesisOrder")
+	c.Analysed(fnName(fn))
+	names := map[string]bool{}
+	eachInstrDeep(fn, func(i ssa.Instruction) {
+		var ops [10]*ssa.Value
+		for _, op := range i.Operands(ops[:0]) {
+			if op != nil && *op != nil {
+				if s, ok := strConst(*op); ok {
+					names[s] = true
+				}
+			}
+		}
+	})
+	for _, m := range mods {
+		c.Ob(rule, "genesis import order names the "+m+" module", fn.Pos(), names[m], "module "+m+" is missing from akashInitGenesisOrder: after an export/import its records are not restored while the bank restores the coins its module account held")
+	}
+	used := false
+	for _, g := range l.pkgFuncs("app") {
+		setsOrder, callsList := false, false
+		for _, call := range callsIn(g, false) {
+			if calleeMethod(call) == "SetOrderInitGenesis" {
+				setsOrder = true
+			}
+			if call.Common().StaticCallee() == fn {
+				callsList = true
+			}
+		}
+		if setsOrder && callsList {
+			used = true
+		}
+	}
+	c.Ob(rule, "the module manager's genesis order includes akashInitGenesisOrder()", fn.Pos(), used, "SetOrderInitGenesis is not given the akash module list")
 }
 
 // baseFieldAddr: for stores to x.F or x.F.G returns the outermost FieldAddr whose struct is an escrow record.
@@ -310,7 +363,10 @@ func (c *Check) depositSite(fn *ssa.Function, send *ssa.Call) {
 	// or of Balance.Add(amt)
 	credited := false
 	nbal := 0
-	eachInstr(fn, func(i ssa.Instruction) {
+	// (send, credit and write may sit in different new helpers of fn: values are read with each helper's
+	// parameters replaced by the arguments of its call)
+	amtS := symInCaller(amt)
+	eachInstrDeep(fn, func(i ssa.Instruction) {
 		st, ok := i.(*ssa.Store)
 		if !ok {
 			return
@@ -324,14 +380,14 @@ func (c *Check) depositSite(fn *ssa.Function, send *ssa.Call) {
 			return
 		}
 		nbal++
-		if Sym(st.Val) == Sym(amt) {
+		if symInCaller(st.Val) == amtS {
 			credited = true
 			return
 		}
 		if call, ok := st.Val.(*ssa.Call); ok && strings.HasSuffix(calleeFull(call), "types.Coin).Add") {
 			a := call.Call.Args
 			// receiver = load of the same field, arg = amt
-			if len(a) == 2 && Sym(a[1]) == Sym(amt) && Sym(a[0]) == strings.TrimPrefix(Sym(st.Addr), "&") {
+			if len(a) == 2 && symInCaller(a[1]) == amtS && Sym(a[0]) == strings.TrimPrefix(Sym(st.Addr), "&") {
 				credited = true
 				return
 			}
@@ -340,7 +396,7 @@ func (c *Check) depositSite(fn *ssa.Function, send *ssa.Call) {
 	})
 	c.Ob("R2", inst+": credited amount == sent amount", send.Pos(), credited && nbal == 1, "Account.Balance is not credited with exactly the value handed to the bank ("+Sym(amt)+")")
 	// sender: the owner recorded in the account
-	sender := Sym(args[1])
+	sender := symInCaller(args[1])
 	okSender := false
 	if strings.Contains(sender, "AccAddressFromBech32(local:obj.Owner)#0") || strings.HasPrefix(sender, "types.AccAddressFromBech32(") && strings.Contains(sender, ".Owner)#0") {
 		okSender = true // existing account: debit its recorded owner
@@ -486,21 +542,35 @@ func persistsParam(fn *ssa.Function) int {
 }
 
 func (c *Check) macPerms(modName string) {
-	// AST evaluation of app.MacPerms composite literal
-	fd, pkg := c.L.FuncDecl("app", "", "MacPerms")
+	// the permission table, whether written as a composite literal or filled by assignments: every entry put under
+	// the escrow module's name is nil / empty
+	fd, _ := c.L.FuncDecl("app", "", "MacPerms")
+	mp := c.L.Func("app", "", "MacPerms")
 	found := false
-	astInspectKV(fd, func(k, v astExpr) {
-		tv, ok := pkg.TypesInfo.Types[k]
-		if !ok || tv.Value == nil || tv.Value.ExactString() != modName {
+	eachInstrDeep(mp, func(i ssa.Instruction) {
+		mu, ok := i.(*ssa.MapUpdate)
+		if !ok {
+			return
+		}
+		k, isK := strConst(mu.Key)
+		if !isK || strconv.Quote(k) != modName {
 			return
 		}
 		found = true
-		vt := pkg.TypesInfo.Types[v]
-		isNil := vt.IsNil()
-		if cl, ok := v.(*astCompositeLit); ok && len(cl.Elts) == 0 {
-			isNil = true
+		empty := isNilConst(stripConv(mu.Value))
+		if sl, isSl := mu.Value.(*ssa.Slice); isSl {
+			if al, isAl := sl.X.(*ssa.Alloc); isAl {
+				if at, isArr := al.Type().(*types.Pointer).Elem().Underlying().(*types.Array); isArr && at.Len() == 0 {
+					empty = true
+				}
+			}
 		}
-		c.Ob("R5", "escrow module account permissions empty", k.Pos(), isNil, "escrow module account is given mint/burn/staking permissions")
+		if mk, isMk := mu.Value.(*ssa.MakeSlice); isMk {
+			if n, isN := constInt(mk.Len); isN && n == 0 {
+				empty = true
+			}
+		}
+		c.Ob("R5", "escrow module account permissions empty", mu.Pos(), empty, "escrow module account is given mint/burn/staking permissions")
 	})
 	c.Ob("R5", "escrow module account registered", fd.Pos(), found, "escrow module account missing from MacPerms")
 	// allowedReceivingModAcc must not allow escrow
